@@ -137,12 +137,15 @@ func writeObject(w io.Writer, value any) error {
 			}
 		}
 		return nil
-	case reflect.Map:
+	case reflect.Map, reflect.Struct:
 		// print nested Drops and pointers as the values they stand for
 		_, err := io.WriteString(w, fmt.Sprint(values.Plain(value)))
 		return err
 	case reflect.Ptr:
-		return writeObject(w, reflect.ValueOf(value).Elem())
+		if rt.IsNil() {
+			return nil
+		}
+		return writeObject(w, rt.Elem().Interface())
 	default:
 		_, err := io.WriteString(w, values.Sprint(value))
 		return err
